@@ -711,6 +711,9 @@ func (n *ExtendsNode) Render(w io.Writer, ctx *RenderContext) error {
 	parentCtx := NewRenderContext(ctx.env, ctx.context, ctx.engine)
 	parentCtx.extending = true // Flag that the parent is being extended
 
+	// The parent template runs under the same sandbox restrictions
+	parentCtx.sandboxed = ctx.sandboxed
+
 	// Pass along the parent template as lastLoadedTemplate for relative path resolution
 	parentCtx.lastLoadedTemplate = parentTemplate
 
@@ -828,8 +831,9 @@ func (n *IncludeNode) Render(w io.Writer, ctx *RenderContext) error {
 		// Only mode - create empty context
 		contextVars := make(map[string]interface{}, len(n.variables))
 
-		// Create a new context
+		// Create a new context; it stays sandboxed when the including template is
 		includeCtx = NewRenderContext(ctx.env, contextVars, ctx.engine)
+		includeCtx.sandboxed = ctx.sandboxed
 		// Set the template as the lastLoadedTemplate for relative path resolutionn			includeCtx.lastLoadedTemplate = template
 		defer includeCtx.Release()
 	}
@@ -1104,6 +1108,9 @@ func (n *MacroNode) CallMacro(w io.Writer, ctx *RenderContext, args ...interface
 	macroCtx := NewRenderContext(ctx.env, nil, ctx.engine)
 	macroCtx.parent = ctx
 
+	// A macro called from sandboxed code runs sandboxed
+	macroCtx.sandboxed = ctx.sandboxed
+
 	// Ensure context is released even in error paths
 	defer macroCtx.Release()
 
@@ -1217,6 +1224,7 @@ func (n *ImportNode) Render(w io.Writer, ctx *RenderContext) error {
 
 	// Create a new context for the imported template
 	importCtx := NewRenderContext(ctx.env, nil, ctx.engine)
+	importCtx.sandboxed = ctx.sandboxed // an imported template is evaluated under the same restrictions
 	// Set the template as the lastLoadedTemplate for relative path resolutionn	importCtx.lastLoadedTemplate = template
 
 	// Ensure context is released even in error paths
@@ -1308,6 +1316,7 @@ func (n *FromImportNode) Render(w io.Writer, ctx *RenderContext) error {
 
 	// Create a new context for the imported template
 	importCtx := NewRenderContext(ctx.env, nil, ctx.engine)
+	importCtx.sandboxed = ctx.sandboxed // an imported template is evaluated under the same restrictions
 	// Set the template as the lastLoadedTemplate for relative path resolutionn	importCtx.lastLoadedTemplate = template
 
 	// Ensure context is released even in error paths
